@@ -8,7 +8,7 @@ def generate(tier, rng):
     c = Corpus()
     k = 0
     nu = 0
-    gens = ['', 'ty', 'lt', 'where', 'const', 'lt_ty']
+    gens = ['', 'ty', 'lt', 'where', 'const', 'lt_ty', 'ty_nd']
     for repr_ in reprcorpus.REPRS:
         for n in ((1, 4) if tier == 'quick' else (1, 2, 4, 7)):
             lays = reprcorpus.layouts(repr_, n)
@@ -22,7 +22,7 @@ def generate(tier, rng):
                     if gen in ('lt', 'const', 'lt_ty'):
                         pass
                     e = reprcorpus.make_enum('c09_%d' % k, 'EnC09x%d' % k, n, repr_, lname, lay, 'none', unit_only,
-                                             ['EnumDiscriminants'], ['disc'], generics=gen if gen in ('', 'ty', 'where') else '')
+                                             ['EnumDiscriminants'], ['disc'], generics=gen if gen in ('', 'ty', 'where', 'ty_nd') else '')
                     # generic parameters other than a plain type parameter: add a carrying variant up front when discriminants allow
                     if gen in ('lt', 'const', 'lt_ty') and lname == 'implicit' and not unit_only:
                         from ..spec import VSpec
